@@ -104,6 +104,8 @@ pub struct Out {
     /// ops of this stream do not depend on earlier ops: a violation replays as the single op
     pub stateless: bool,
     current_op: Option<String>,
+    /// the property a panic inside an op of this stream is charged to (besides C05)
+    pub home: &'static str,
 }
 pub struct Violation {
     pub property: String,
@@ -126,6 +128,7 @@ impl Out {
             distinct: Default::default(),
             stateless: false,
             current_op: None,
+            home: "C05",
         }
     }
     /// Start a new case (a self-contained op sequence; the model state is reset by the driver).
@@ -145,7 +148,19 @@ impl Out {
     /// Execute one op line on the implementation through the stream's interpreter and record it.
     pub fn run<S: Stream + ?Sized>(&mut self, s: &mut S, op: String) -> String {
         self.current_op = Some(op.clone());
-        let r = s.exec(&op, self);
+        // a panic of the implementation inside one op is a finding, not the end of the run
+        let r = match std::panic::catch_unwind(std::panic::AssertUnwindSafe(|| s.exec(&op, &mut *self))) {
+            Ok(r) => r,
+            Err(_) => {
+                let msg = LAST_PANIC.lock().map(|l| l.replace('\n', " ")).unwrap_or_default();
+                let home = self.home;
+                self.violation("C05", "panic-in-op", format!("op `{}` panicked: {msg}", op.chars().take(200).collect::<String>()));
+                if home != "C05" {
+                    self.violation(home, "panic-in-op", format!("op `{}` panicked: {msg}", op.chars().take(200).collect::<String>()));
+                }
+                "panic".to_string()
+            }
+        };
         self.current_op = None;
         self.op(op, r.clone());
         r
